@@ -111,13 +111,17 @@ structure MorphR where
   complete : Bool
   deriving Repr, Inhabited
 
+/-- the summand one morph contributes: its algebra properties and the copy count -/
+def summandOfMorph (m : MorphR) : Except Err Summand := do
+  let (ty, nc, size) ← getAlgebraProperties m.legs
+  return ⟨ty, size, ← multiplicity nc⟩
+
+/-- the summands of all morphs, in order; raises at the first morph that raises -/
+def summandsOf (ms : List MorphR) : Except Err (List Summand) := ms.mapM summandOfMorph
+
 /-- `Classification.get_algebra()` as a sorted multiset of summands -/
 def algebraOfMorphs (ms : List MorphR) : Except Err (List Summand) := do
-  let mut l : List Summand := []
-  for m in ms do
-    let (ty, nc, size) ← getAlgebraProperties m.legs
-    l := l ++ [⟨ty, size, ← multiplicity nc⟩]
-  return mergeSummands l
+  return mergeSummands (← summandsOf ms)
 
 def dimSU (n : Nat) : Nat := n ^ 2 - 1
 def dimSO (n : Nat) : Nat := n * (n - 1) / 2
@@ -128,14 +132,9 @@ def Summand.dim (s : Summand) : Nat :=
   s.mult * (match s.ty with
     | .U => 1 | .SU => dimSU s.size | .SP => dimSP s.size | .SO => dimSO s.size)
 
-/-- `Classification.get_dla_dim()` -/
+/-- `Classification.get_dla_dim()`: the dimensions of the summands of all morphs, added up -/
 def dlaDimOfMorphs (ms : List MorphR) : Except Err Nat := do
-  let mut dim := 0
-  for m in ms do
-    let (ty, nc, size) ← getAlgebraProperties m.legs
-    let mult ← multiplicity nc
-    dim := dim + (Summand.dim ⟨ty, size, mult⟩)
-  return dim
+  return ((← summandsOf ms).map Summand.dim).sum
 
 /-- `PauliStringCollection.classify()`: one morph per connected component -/
 def classify (gens : List PS) : Except Err (List MorphR) := do
